@@ -11,7 +11,7 @@ COMMON := $(wildcard harness/common/*.hpp)
 
 STRUCT_BINS := $(B)/qsl $(B)/map $(B)/bst $(B)/mem
 ACTOR_HDR := $(wildcard harness/actor/*.hpp harness/actor/*.inc)
-ALL := $(STRUCT_BINS) $(B)/actor $(B)/thpool $(B)/thpool_race
+ALL := $(STRUCT_BINS) $(B)/actor $(B)/thpool $(B)/thpool_race $(B)/foreign $(B)/ctxrace
 
 .PHONY: all bins lib-asan lib-tsan lib-fuzz clean FORCE
 all:
@@ -52,6 +52,11 @@ $(B)/thpool: $(B)/obj/thpool/pool.o $(B)/obj/thpool/sched.o $(B)/lib-asan/libmod
 
 $(B)/thpool_race: harness/thpool/race.cpp $(COMMON) $(B)/lib-tsan/libmodule.a
 	$(CXX) $(CXXFLAGS) $(TSAN) $(LIBINC) -I$(B)/lib-tsan/gen harness/thpool/race.cpp $(B)/lib-tsan/libmodule.a -lrapidcheck -lpthread -ldl -o $@
+
+$(B)/foreign: harness/multictx/foreign.cpp $(COMMON) $(B)/lib-asan/libmodule.a
+	$(CXX) $(CXXFLAGS) $(ASAN) $(LIBINC) -I$(B)/lib-asan/gen harness/multictx/foreign.cpp $(B)/lib-asan/libmodule.a -lrapidcheck -lpthread -ldl -o $@
+$(B)/ctxrace: harness/multictx/ctxrace.cpp $(COMMON) $(B)/lib-tsan/libmodule.a
+	$(CXX) $(CXXFLAGS) $(TSAN) $(LIBINC) -I$(B)/lib-tsan/gen harness/multictx/ctxrace.cpp $(B)/lib-tsan/libmodule.a -lrapidcheck -lpthread -ldl -o $@
 
 clean:
 	rm -rf $(B)
